@@ -147,6 +147,9 @@ type Engine struct {
 	EntryName     string
 	maxCex        int
 	UnknownFeas   int
+	FreshRetries  int // undecided queries re-run in fresh one-shot solver processes
+	FreshDecided  int
+	UnknownNotes  []string // where/what of the first undecided obligations (diagnostics)
 	EngineErrors  []string
 	Assumptions   map[string]bool
 	MaxDepth      int
@@ -241,7 +244,45 @@ func (e *Engine) check(t *smt.Term, model []*smt.Term) (smt.Result, map[string]u
 		// solver restarted: stack is empty now
 		e.solverPC = nil
 	}
+	if r == smt.Unknown {
+		if r2, m2, ok := e.checkFresh(t, model); ok {
+			return r2, m2
+		}
+	}
 	return r, m
+}
+
+// checkFresh re-decides an undecided query in fresh one-shot solver processes (same solver
+// without push/pop, then the other installed solvers), each with six times the per-query
+// timeout. Only a definite sat/unsat without any error line is accepted.
+func (e *Engine) checkFresh(t *smt.Term, model []*smt.Term) (smt.Result, map[string]uint64, bool) {
+	kinds := []string{e.Solver.Kind}
+	for _, k := range []string{"z3", "z3-new", "cvc5"} {
+		if k != e.Solver.Kind {
+			kinds = append(kinds, k)
+		}
+	}
+	for _, k := range kinds {
+		s, err := smt.NewSolver(k, e.Solver.TimeoutMs*6)
+		if err != nil {
+			continue
+		}
+		e.FreshRetries++
+		for _, c := range e.pc {
+			s.AssertBase(c)
+		}
+		if t != nil {
+			s.AssertBase(t)
+		}
+		r, m := s.Check(nil, model)
+		nerr := len(s.Errors)
+		s.Close()
+		if r != smt.Unknown && nerr == 0 {
+			e.FreshDecided++
+			return r, m, true
+		}
+	}
+	return smt.Unknown, nil, false
 }
 
 func (e *Engine) replaying() bool { return len(e.trace) < len(e.replay) }
@@ -866,6 +907,19 @@ func (e *Engine) assert(cond *smt.Term, label string) {
 		e.recordCex(label, m, e.whereAmI())
 	default:
 		st.Unknown++
+		if len(e.UnknownNotes) < 5 {
+			txt := smt.Not(cond).String()
+			if len(txt) > 1500 {
+				txt = txt[:1500] + "…"
+			}
+			pc := ""
+			for _, t := range e.pc {
+				if len(pc) < 3000 {
+					pc += " ∧ " + t.String()
+				}
+			}
+			e.UnknownNotes = append(e.UnknownNotes, fmt.Sprintf("%s at %s events=%v query=%s pc=%s", label, e.whereAmI(), e.events, txt, pc))
+		}
 	}
 	// continue under the assumption that the assertion held
 	if !cond.IsFalse() {
